@@ -161,30 +161,45 @@ class MtlRun:
 
 
 def twin_autograd_mtl(run: MtlRun) -> list[str]:
-    """C05 (mtl): shared params == autograd.backward(features, grad_tensors = sum_i w_i dloss_i/df);
-    task params == sum over the tasks listing them of loss_i.backward(inputs=...)."""
+    """C05 (mtl): shared params == autograd(features, grad_tensors = sum_i w_i dloss_i/df);
+    task params == sum over the tasks listing them of d loss_i / d p, all obtained from plain
+    torch.autograd on an identically built twin graph.  (torch.autograd.grad is used rather than
+    .backward(): when autograd hands one gradient tensor to two leaves, torch's own AccumulateGrad
+    may let their .grad alias, which would corrupt the twin's later accumulations.)"""
     scn = run.scn
     B = Built(scn["prog"], dtype=run.dtype, shapes=run.built.shapes)
-    for l, flat in fmap(scn.get("pregrad")).items():
-        B.set_grad(int(l), flat)
     w = [float(v) for v in scn["w"]]
     feats = [B.node(f) for f in run.feats]
     cts = [torch.zeros_like(f) for f in feats]
+    upd: dict[int, torch.Tensor] = {}
+
+    def add(l, g):
+        g = torch.zeros_like(B.node(l)) if g is None else g.detach().clone()
+        upd[l] = g if l not in upd else upd[l] + g
+
     for i, li in enumerate(run.losses):
         gs = torch.autograd.grad(B.node(li), feats, retain_graph=True, allow_unused=True)
         for j, g in enumerate(gs):
             if g is not None:
                 cts[j] = cts[j] + w[i] * g
         if run.tparams[i]:
-            torch.autograd.backward(B.node(li), inputs=[B.node(p) for p in run.tparams[i]], retain_graph=True)
+            gp = torch.autograd.grad(B.node(li), [B.node(p) for p in run.tparams[i]], retain_graph=True, allow_unused=True)
+            for p, g in zip(run.tparams[i], gp):
+                add(p, g)
     if run.shared:
-        torch.autograd.backward(feats, grad_tensors=cts, inputs=[B.node(s) for s in run.shared], retain_graph=True)
+        gsh = torch.autograd.grad(feats, [B.node(s) for s in run.shared], grad_outputs=cts, retain_graph=True,
+                                  allow_unused=True)
+        for s_, g in zip(run.shared, gsh):
+            add(s_, g)
     out = []
-    req = set(run.shared) | {p for tp in run.tparams for p in tp}
     for l in run.leaves:
-        a, b = run.after_grads[l], B.grad_flat(l)
-        if l in req and b is None:
-            b = [0.0] * B.node(l).numel() if run.before_grads[l] is None else run.before_grads[l]
+        a = run.after_grads[l]
+        before = run.before_grads[l]
+        if l in upd:
+            u = upd[l].reshape(-1).tolist()
+            b = u if before is None else [x + y for x, y in zip(before, u)]
+        else:
+            b = before
         if a != b:
             out.append(f"leaf {l}: torchjd {a} vs torch.autograd {b}")
     return out
